@@ -324,7 +324,7 @@ def run(ck):
                     if o[0] == L.OUT_START_D and o[1] == 0:
                         ck.hist("startd_fails_kind=%d" % o[2])
             ck.cov["float_checks"] = ck.cov.get("float_checks", 0) + drv.float_checks
-        diffs, mo = ck.correspond(MODEL, MODULE, cases, impl, label,
+        diffs, mo = L.correspond(ck, MODEL, MODULE, cases, impl, label,
                                   nontrivial=lambda c, o: any(x in o for x in (L.OUT_SCHED,)) and len(o) > 12, describe=describe)
         # monitors: implementation trace AND model trace
         for idx, (cfg, evs, drv) in enumerate(items):
@@ -357,7 +357,7 @@ def run(ck):
             if not found:
                 i = diffs[0]
                 cfg, evs, drv = items[i]
-                small = shrink(cfg, evs, lambda c, e: L.run_impl(c, e).trace != ck.model(MODEL, [L.case_line(c, e)])[0])
+                small = shrink(cfg, evs, lambda c, e: L.canon_trace(L.run_impl(c, e).trace) != L.canon_trace(ck.model(MODEL, [L.case_line(c, e)])[0]))
                 d2 = L.run_impl(cfg, small)
                 m2 = ck.model(MODEL, [L.case_line(cfg, small)])[0]
                 sa, _ = L.split_steps(d2.trace)
